@@ -31,6 +31,9 @@ type parseScenario struct {
 	TimeoutMS  int               `json:"timeout_ms"`
 	MaxStackMB int               `json:"max_stack_mb"`
 	ResultOut  string            `json:"result_out"`
+	// SupplyAll: the caller hands Parse a file cache that already holds every file of the context directory (keyed by
+	// the path it has there), as a program embedding the engine may, instead of naming only the main workflow
+	SupplyAll bool `json:"supply_all"`
 }
 
 func cmdParse(path string) int {
@@ -91,9 +94,22 @@ func cmdParse(path string) int {
 		writeJSON(sc.ResultOut, res)
 		return 0
 	}
-	fc, err := loadfile.NewFileCacheUsingContext(sc.Dir, map[string]string{"workflow": sc.Main})
-	if err == nil {
-		err = fc.LoadContext()
+	var fc loadfile.FileCache
+	if sc.SupplyAll {
+		contents := map[string][]byte{}
+		for name, b64 := range sc.FilesB64 {
+			data, _ := base64.StdEncoding.DecodeString(b64)
+			contents[name] = data
+		}
+		if _, has := contents[sc.Main]; has {
+			contents["workflow"] = contents[sc.Main]
+		}
+		fc = loadfile.NewFileCache(sc.Dir, contents)
+	} else {
+		fc, err = loadfile.NewFileCacheUsingContext(sc.Dir, map[string]string{"workflow": sc.Main})
+		if err == nil {
+			err = fc.LoadContext()
+		}
 	}
 	if err != nil {
 		res["load_err"] = trunc(err.Error())
